@@ -150,8 +150,12 @@ def Dd(factory, *items):
     return ["defaultdict", factory, [list(kv) for kv in items]]
 
 
-def Arr(dtype, shape, *elems):
-    return ["ndarray", dtype, list(shape), list(elems)]
+def Arr(dtype, shape, *elems, layout=None):
+    """layout None = C-contiguous; "F" = same value in Fortran memory order; "T" = the transposed view (shape reversed)"""
+    d = ["ndarray", dtype, list(shape), list(elems)]
+    if layout:
+        d.append(layout)
+    return d
 
 
 def Ms(dtype, data, mask):
@@ -234,14 +238,20 @@ def build(d):  # noqa: C901, PLR0911, PLR0912
     if t == "array":
         return array.array(d[1], [LEAVES[c] for c in d[2]])
     if t == "ndarray":
-        _, dtype, shape, elems = d
+        _, dtype, shape, elems = d[:4]
         if dtype == "object":
             a = np.empty(len(elems), dtype=object)
             for i, e in enumerate(elems):
                 a[i] = build(e)
         else:
             a = np.array([build(e) for e in elems], dtype=dtype)
-        return a.reshape(tuple(shape))
+        a = a.reshape(tuple(shape))
+        layout = d[4] if len(d) > 4 else None
+        if layout == "F":
+            a = np.asfortranarray(a)  # equal value, different strides
+        elif layout == "T":
+            a = a.T  # a view: different value (unless symmetric), non-contiguous
+        return a
     if t == "masked":
         return np.ma.array([LEAVES[c] for c in d[2]], mask=[bool(b) for b in d[3]], dtype=d[1])
     if t == "Series":
@@ -285,10 +295,11 @@ def render(d):  # noqa: C901, PLR0911, PLR0912
     if t == "array":
         return f"array.array({d[1]!r}, [{', '.join(d[2])}])"
     if t == "ndarray":
-        _, dtype, shape, elems = d
+        _, dtype, shape, elems = d[:4]
+        suffix = {"F": " (asfortranarray)", "T": ".T"}.get(d[4] if len(d) > 4 else None, "")
         if dtype == "object":
-            return f"objarr([{', '.join(render(e) for e in elems)}]).reshape{tuple(shape)}"
-        return f"np.array([{', '.join(render(e) for e in elems)}], dtype={dtype!r}).reshape{tuple(shape)}"
+            return f"objarr([{', '.join(render(e) for e in elems)}]).reshape{tuple(shape)}{suffix}"
+        return f"np.array([{', '.join(render(e) for e in elems)}], dtype={dtype!r}).reshape{tuple(shape)}{suffix}"
     if t == "masked":
         return f"np.ma.array([{', '.join(d[2])}], mask={d[3]}, dtype={d[1]!r})"
     if t == "Series":
@@ -350,6 +361,12 @@ def _level1():
         for dtype, pool in (("int64", ("0", "1", "-1")), ("float64", ("0", "1", "1.5", "nan")),
                             ("object", ("1", "True", "1.5", "'a'", "None"))):
             out += [Arr(dtype, shape, lf(a), lf(b)) for a in pool for b in pool]
+    # 2x2 arrays in every memory layout: the key must depend on the VALUE (row-major content), not on the strides
+    for dtype in ("int64", "object"):
+        e = [lf(c) for c in ("0", "1", "-1", "0")]
+        et = [lf(c) for c in ("0", "-1", "1", "0")]
+        out += [Arr(dtype, (2, 2), *e), Arr(dtype, (2, 2), *e, layout="F"), Arr(dtype, (2, 2), *e, layout="T"),
+                Arr(dtype, (2, 2), *et), Arr(dtype, (2, 2), *et, layout="F")]
     for dtype in ("int64", "float64"):
         for data in (("0", "1"), ("1", "0"), ("1", "1")):
             for mask in ((0, 0), (0, 1), (1, 0), (1, 1)):
@@ -862,6 +879,15 @@ def _minimal(tab, i, j, what):
         i, j = found
 
 
+def _has_layout_variant(d):
+    """a non-C-contiguous ndarray (layout F/T) somewhere inside the description"""
+    if isinstance(d, list):
+        if d and d[0] == "ndarray" and len(d) > 4:
+            return True
+        return any(_has_layout_variant(x) for x in d)
+    return False
+
+
 def check_pair(tab, i, j):
     what = _violates(tab, i, j)
     if what is None:
@@ -873,6 +899,8 @@ def check_pair(tab, i, j):
         sig = {"kind": "equal-values-different-keys", "at": tag(da), "cause": tab.partial_order_cause(a)}
         if a == b:
             sig["cause"] = "rebuilt-copy"
+        if tag(da) in USER and (_has_layout_variant(da) or _has_layout_variant(db)):
+            sig["cause"] = "pickle-fallback-of-noncontiguous-array"
         kb = tab.key2[a] if a == b else tab.key[b]
         hashnote = "" if tab.keys_equal(a, b) is False else " (keys equal, hashes differ)"
         return [(sig, f"equal values of the same type get different keys{hashnote}: to_hashable({render(da)}) = {tab.key[a]!r} "
